@@ -169,6 +169,17 @@ def run_case(case: dict) -> dict:
                     viols.append(core.viol("frozen value changed with state/time", None, name=k, at0=float(a0[k]), later=float(got[k]), spec=spec))
             # sensitivity: would a recomputation at (st,t) have given something else?
             sensitive = sensitive or _recompute_differs(ref, st, t)
+        # the declared initial state at a later time (implicit, and as the very object the model handed out): what depends
+        # on time is recomputed, what is frozen stays
+        for t_late in (round(rng.uniform(0.5, 4.0), 3), 40.0):
+            g1 = model.get_args(time=t_late)  # contract compares with ref.at(None, t)
+            model.get_right_hand_side(time=t_late)
+            model.get_fluxes(time=t_late)
+            g2 = model.get_args(model.get_initial_conditions(), t_late)
+            for k in frozen_names:
+                if not core.close(g1[k], a0[k]) or not core.close(g2[k], a0[k]):
+                    viols.append(core.viol("frozen value changed with time at the initial state", None, name=k, at0=float(a0[k]), later=float(g1[k]), spec=spec))
+        counters["initial state queried at later times"] = 2
         counters["states queried"] = 3
         # the declared initial state changes (plain number for one variable) after everything was resolved and queried once:
         # "computed once, at time zero from the declared initial state" now means the new declaration
